@@ -56,6 +56,16 @@ def gen_cases(ctx, n_trees, maxdepth):
                     cases.append((envc, e))
                 except Exception:
                     pass
+    # SUMS OF TERMS whose variable lists are the same set in different orders (x*y then y/x ...), different sets, repeated
+    # terms: evaluated with `+` and - the sibling entry point - through `impl Sum` (see run_generic)
+    terms = [("mul", x, y), ("div", y, x), ("mul", y, x), ("div", x, y), x, y, ("mul", ("mul", z, y), x), ("mul", ("mul", x, y), z),
+             ("mulf", ("mul", y, x), 2.0), ("exp", x), ("add", y, z), ("mul", z, z), ("sub", x, y), ("sub", y, x)]
+    for _ in range(120 if ctx.tier == "thorough" else 40):
+        ts = [rng.choice(terms) for _ in range(rng.randint(2, 5))]
+        e = ts[0]
+        for t in ts[1:]:
+            e = ("add", e, t)
+        cases.append((envp, e))
     # extreme magnitudes: tiny / huge / exactly-zero operands for every operator variant
     ext = dg.extreme_cases(order=(2 if OPCODE == 2 else 1))
     if ctx.tier != "thorough":
@@ -130,6 +140,26 @@ def run_generic(ctx, schema, opcode, prop, n_quick, n_thorough, depth_quick, dep
                    "harness_cmd": "echo 'c %s' | harness/target/release/rlharness dual" % " ".join(str(x) for x in c)}
             ctx.violation("the implementation's value/gradient for %s differs from the proved model's "
                           "(finite differences of the plain evaluation: %s)" % (describe(env, e), fd), rep)
+    # THE ITERATOR FORM of addition: every case whose root is a chain of `+` is evaluated once more with that chain summed
+    # through `impl Sum` ([t1, t2, ..].into_iter().sum(), harness op 31 / 32) and compared with the same model output
+    sums = [(k, (env, e)) for k, (env, e) in enumerate(cases) if e[0] == "add"]
+    impl_s = run_harness("dual", ["c " + " ".join(str(x) for x in [opcode + 30] + enc[k][1:]) for k, _ in sums])
+    for (k, (env, e)), a in zip(sums, impl_s):
+        ctx.evaluations += 1
+        ctx.count("top-level sum through impl Sum")
+        ok, da, db = dg.agree(a, model[k], schema)
+        if ok and extra_check is not None and da[0] == "ok":
+            msg = extra_check(env, e, da[1])
+            if msg:
+                ok, db = False, ("ok", msg)
+        if not ok:
+            nbad += 1
+            c = [opcode + 30] + enc[k][1:]
+            ctx.violation("the implementation's value/gradient for the terms of %s summed through impl Sum differs from the proved "
+                          "model's" % describe(env, e),
+                          {"expression": dg.show_expr(e), "env": [[n, v] for n, v in env], "case": c, "via": "impl Sum",
+                           "implementation": dg.plain(da), "model": dg.plain(db),
+                           "harness_cmd": "echo 'c %s' | harness/target/release/rlharness dual" % " ".join(str(x) for x in c)})
     for (env, e) in cases[:4]:
         ctx.sample(describe(env, e))
     return nbad
@@ -166,8 +196,9 @@ def replay(ctx, rp):
     build_coq(["theories/Run/RunDual.vo"])
     c = rp["case"]
     a = run_harness("dual", ["c " + " ".join(str(x) for x in c)])[0]
-    b = coq_eval(RUNMOD, RUNFN, [c], ctx.work)[0]
-    schema = SCHEMA if c[0] == 1 else ["f", "dual2", "vec", "mat", "dual", "dual"]
+    cm = [c[0] - 30] + list(c[1:]) if c[0] > 30 else c          # ops 31 / 32: the model has one addition
+    b = coq_eval(RUNMOD, RUNFN, [cm], ctx.work)[0]
+    schema = SCHEMA if cm[0] == 1 else ["f", "dual2", "vec", "mat", "dual", "dual"]
     ok, da, db = dg.agree(a, b, schema)
     print("replay %s: implementation %s\n model %s" % (rp.get("expression"), dg.plain(da), dg.plain(db)))
     ctx.cleanup()
